@@ -305,13 +305,21 @@ func c17Refused(v interface{}) []interface{} {
 	return nil
 }
 
-// c17AfterLarge: on a fresh instance, one or two requests that render a large document (2 KiB of text) of
-// the same format, then op, which must be rendered as on a fresh instance (and the large one again after it).
+// c17AfterLarge: on a fresh instance, one or two requests that render a large body (2 KiB) of the same kind,
+// then op, a medium body, op again and the large one again: each rendered as on a fresh instance.
 func c17AfterLarge(o c17Opts, op c17Op, count func()) (bad, kind string) {
-	if op.Kind != "JSON" && op.Kind != "XML" {
-		return "", ""
+	var large, medium c17Op
+	switch op.Kind {
+	case "JSON", "XML":
+		large = c17Op{op.Kind, 200, c17Flat{A: strings.Repeat("large document ", 140), B: "b"}}
+		medium = c17Op{op.Kind, 200, c17Flat{A: strings.Repeat("medium ", 60), B: "m"}}
+	case "PlainText":
+		large = c17Op{op.Kind, 200, strings.Repeat("large text ", 190)}
+		medium = c17Op{op.Kind, 200, strings.Repeat("medium ", 60)}
+	default:
+		large = c17Op{op.Kind, 200, bytes.Repeat([]byte{0xfe, 0x00, 'x'}, 700)}
+		medium = c17Op{op.Kind, 200, bytes.Repeat([]byte{'m', 0xff}, 210)}
 	}
-	large := c17Op{op.Kind, 200, c17Flat{A: strings.Repeat("large document ", 140), B: "b"}}
 	for _, n := range []int{1, 2} {
 		w := c17Build(o)
 		for i := 0; i < n; i++ {
@@ -320,13 +328,12 @@ func c17AfterLarge(o c17Opts, op c17Op, count func()) (bad, kind string) {
 				return "large document: " + bad, kind + "/large"
 			}
 		}
-		count()
-		if bad, kind = c17Judge(w, o, op); bad != "" {
-			return fmt.Sprintf("after %d earlier request(s) that rendered a 2 KiB %s document: ", n, op.Kind) + bad, kind + "/after-large-document"
-		}
-		count()
-		if bad, kind = c17Judge(w, o, large); bad != "" {
-			return "large document after a small one: " + bad, kind + "/large"
+		// large, then the render under test, then a medium one, then the render under test again
+		for step, x := range []c17Op{op, medium, op, large} {
+			count()
+			if bad, kind = c17Judge(w, o, x); bad != "" {
+				return fmt.Sprintf("after %d request(s) that rendered a 2 KiB %s body, step %d of the sequence [this render, a 420-byte one, this render, the large one]: ", n, op.Kind, step+1) + bad, kind + "/after-large-document"
+			}
 		}
 	}
 	return "", ""
@@ -413,7 +420,7 @@ func c17Run(r *core.Run) {
 		}
 	}
 	ops := c17Ops(r.Thorough())
-	r.Rule = "engine E: every status 100..999 x {JSON, XML, Binary, PlainText} x all 8 option sets (charset x JSON indent x XML indent); values: every byte string of length <=1 and a grid (thorough: all) of length 2 plus longer ones for Binary/PlainText, JSON trees over {null,bool,numbers,strings incl. html-sensitive and non-ASCII} to depth 2 width 2 plus structs/slices/maps, five XML struct shapes with all field values from {'', a, <&>\", e-acute, blanks, ]]>}; every third render also around requests through a route that carries a second Renderer with other options; every third JSON/XML render also after and before 2 KiB documents of its format on the same instance; every JSON/XML value with an interface in it also as the request after one or two requests (same instance) whose value of the same type the encoder refused; oracle: exact status at the underlying writer, exact Content-Type, bytes/strings verbatim, JSON/XML text equal to the standard encoder's output with the configured indentation and decoding back to an equal value; non-trivial = non-200 status or a value that needs escaping"
+	r.Rule = "engine E: every status 100..999 x {JSON, XML, Binary, PlainText} x all 8 option sets (charset x JSON indent x XML indent); values: every byte string of length <=1 and a grid (thorough: all) of length 2 plus longer ones for Binary/PlainText, JSON trees over {null,bool,numbers,strings incl. html-sensitive and non-ASCII} to depth 2 width 2 plus structs/slices/maps, five XML struct shapes with all field values from {'', a, <&>\", e-acute, blanks, ]]>}; every third render also around requests through a route that carries a second Renderer with other options; every third render also inside sequences of large (2 KiB), medium and small bodies of its kind on the same instance; every JSON/XML value with an interface in it also as the request after one or two requests (same instance) whose value of the same type the encoder refused; oracle: exact status at the underlying writer, exact Content-Type, bytes/strings verbatim, JSON/XML text equal to the standard encoder's output with the configured indentation and decoding back to an equal value; non-trivial = non-200 status or a value that needs escaping"
 	r.Bounds["ops"] = len(ops)
 	r.Bounds["option_sets"] = len(optsets)
 	r.Assumptions = []string{"encoding/json and encoding/xml are the reference encoders (trusted)", "values the standard encoders refuse are outside the statement"}
